@@ -115,6 +115,69 @@ def strip_clone(t):
     return t
 
 
+_USER_CACHE = {}
+
+
+def move_cache_user(facts, name):
+    """A method of the generator other than generate_moves that also works on the move cache (e.g. a `count_moves` that only needs the
+    length): summary {'ok': every probe / store uses the key (position key of its board argument, its colour argument as u8) and every
+    store puts generate_valid_moves(board, colour) of those same arguments, 'len_only': every value it returns is the length of the
+    cached or the generated list, 'board': i, 'color': j, 'problems': [...]}"""
+    key = (id(facts), name)
+    if key in _USER_CACHE:
+        return _USER_CACHE[key]
+    f = facts.fns.get(name)
+    res = {'ok': False, 'len_only': False, 'problems': []}
+    if f is not None:
+        pb = [i for i in range(1, f.arg_count + 1) if f.local_ty(i) in ('&mut ' + BOARD, '&' + BOARD)]
+        pc = [i for i in range(1, f.arg_count + 1) if f.local_ty(i) == 'chess::board::color::Color']
+        if len(pb) == 1 and len(pc) == 1:
+            PB_, PC_ = ('p', pb[0]), ('p', pc[0])
+            res['board'], res['color'] = pb[0], pc[0]
+            want_key = {('call', HASH, (('ref', ('der', PB_)),), ('e', 0)), ('cast', ('discr', PC_), 'u8')}
+            try:
+                outs = Engine(facts, opaque={GVM}, readonly={HASH}).run(name)
+            except PathLimit:
+                outs = []
+                res['problems'].append('path limit')
+            ok = bool(outs)
+            len_only = bool(outs)
+            for o in outs:
+                if o.kind != 'return':
+                    continue
+                lru = [e for e in o.events if e[0] == 'call' and 'LruCache' in e[1]]
+                gens = [('call', GVM, e[2], e[3]) for e in o.events if e[0] == 'call' and e[1] == GVM]
+                for e in lru:
+                    m_ = e[1].rsplit('::', 1)[-1]
+                    if m_ in ('len', 'is_empty', 'cap'):
+                        continue
+                    if m_ not in ('get', 'put', 'peek', 'contains'):
+                        ok = False
+                        res['problems'].append('cache operation ' + m_)
+                        continue
+                    k_ = strip_ref(e[2][1])
+                    comps = set(x for _, x in k_[4]) if k_[0] == 'agg' else set()
+                    if comps != want_key:
+                        ok = False
+                        res['problems'].append('key ' + show(k_)[:100])
+                    if m_ == 'put':
+                        st_ = strip_clone(e[2][2])
+                        if not (st_ in gens and st_[2][0] == ('ref', ('der', PB_)) and st_[2][1] == PC_):
+                            ok = False
+                            res['problems'].append('stores ' + show(e[2][2])[:100])
+                v = o.value
+                inner = v[2][0] if (v is not None and v[0] == 'call' and v[1].endswith('::len') and len(v[2]) == 1) else None
+                good = False
+                if inner is not None:
+                    srcs = [s_ for s_ in subterms(inner) if s_[0] == 'call' and (s_[1] == GVM or ('LruCache' in s_[1] and s_[1].rsplit('::', 1)[-1] in ('get', 'peek')))]
+                    good = len(srcs) == 1 and (srcs[0][1] != GVM or (srcs[0][2][0] == ('ref', ('der', PB_)) and srcs[0][2][1] == PC_))
+                len_only = len_only and good
+            res['ok'] = ok
+            res['len_only'] = ok and len_only
+    _USER_CACHE[key] = res
+    return res
+
+
 ALLOWED_READS = {
     (BOARD, 'white'): 'placement (in the position key)',
     (BOARD, 'black'): 'placement (in the position key)',
@@ -197,6 +260,16 @@ def r4_unkeyed_state(ctx):
     # (a reader that only asks how many entries there are - statistics, a Display impl - neither changes nor hands out what is cached)
     users = {u for u in users if not facts.fns[u].derived and facts.fns[u].impl_trait != 'std::default::Default'
              and (u in (MG + '::generate_moves',) or not size_only_use(facts, facts.fns[u], MG, 'cache'))}
+    # a second method working on the cache is admitted when it obeys the same key discipline as generate_moves (same key, stores what
+    # generate_valid_moves returns for the queried board and colour)
+    for u in sorted(users - {MG + '::generate_moves'}):
+        if u.startswith(MG + '::'):
+            r_ = move_cache_user(facts, u)
+            ctx.touch(u)
+            ctx.ob(rule, u, 'second user of the move cache: same key, stores the generated list of the queried board and colour', r_['ok'],
+                   found=r_['problems'][:3], expected='(board.current_position_hash(), player as u8); put(key, generate_valid_moves(board, player))')
+            if r_['ok']:
+                users = users - {u}
     ctx.ob(rule, MG + '.cache', 'move cache used only by generate_moves (and the entry counter)', users <= {MG + '::generate_moves'},
            found=sorted(users), expected=[MG + '::generate_moves', MG + '::cache_entry_count'])
     # hit_count never reaches a result
